@@ -90,4 +90,20 @@ MUTATIONS = [
 		dict(file='src/gambit/sigs/hdf5.py', old="\t\tgroup.attrs[FMT_VERSION_ATTR] = CURRENT_FMT_VERSION\n\t\tgroup.attrs['kmerspec_k']", new="\t\tgroup.attrs['kmerspec_k']"),
 		dict(file='src/gambit/sigs/hdf5.py', old="\t\tcls._init_datasets(group, signatures, ids, values_kw=kw)\n", new="\t\tcls._init_datasets(group, signatures, ids, values_kw=kw)\n\t\tgroup.file.flush()\n\t\tgroup.attrs[FMT_VERSION_ATTR] = CURRENT_FMT_VERSION\n")]),
 	M('c19-cli-flush', ['C19'], 'src/gambit/sigs/hdf5.py', "\t\tgroup.create_dataset('ids', data=ids, dtype=ids_dtype)\n", "\t\tgroup.create_dataset('ids', data=ids, dtype=ids_dtype)\n\t\tif isinstance(signatures, SignatureArray) or len(signatures) > 7:\n\t\t\tpass\n\t\telse:\n\t\t\tgroup.create_dataset('values', shape=0, dtype=signatures.dtype); group.create_dataset('bounds', data=np.zeros(len(signatures) + 1, dtype=BOUNDS_DTYPE)); group.file.flush(); del group['values']; del group['bounds']\n", 'small list-backed collections: an all-empty placeholder is flushed first, then replaced'),
+	# ---- C10 ----------------------------------------------------------------------------------------
+	M('c10-original-order-dependent', ['C10'], 'src/gambit/classify.py', "\t\t\t\tif not forked:\n\t\t\t\t\ttrunk = list(taxon.ancestors(incself=True))", "\t\t\t\ttrunk = list(taxon.ancestors(incself=True))", 'the pre-fix code: a descendant of a conflict LCA replaces it'),
+	M('c10-others-skip-first', ['C10'], 'src/gambit/classify.py', 'others = {t for t in taxa if t not in trunk}', 'others = {t for t in taxa[1:] if t not in trunk}', 'first matched taxon never reported as conflicting'),
+	M('c10-primary-from-all', ['C10'], 'src/gambit/classify.py', "\t\t\tif consensus not in taxon.ancestors(incself=True):\n\t\t\t\tcontinue\n", "", 'primary match chosen among all matches, not only those at or below the consensus'),
+	M('c10-primary-le', ['C10'], 'src/gambit/classify.py', 'if dists[i] < best_d:', 'if dists[i] <= best_d:', 'still a minimum (last instead of first): must stay silent', expect='silent'),
+	M('c10-no-failure-flag', ['C10'], 'src/gambit/classify.py', "\t\tresult.success = False\n", "", 'no-common-ancestor result not flagged as failed'),
+	M('c10-trunk-index-off', ['C10'], 'src/gambit/classify.py', "\t\t\t\ttrunk = trunk[i:]\n", "\t\t\t\ttrunk = trunk[i + 1:] if len(trunk) > i + 2 else trunk[i:]\n", 'conflict resolved one level too high when the trunk is long enough'),
+	# ---- C03 ----------------------------------------------------------------------------------------
+	M('c03-lt-threshold', ['C03', 'C10'], 'src/gambit/classify.py', 'if t.distance_threshold is not None and d <= t.distance_threshold:', 'if t.distance_threshold is not None and d < t.distance_threshold:', 'distance equal to the threshold no longer matches'),
+	M('c03-argmax', ['C03'], 'src/gambit/classify.py', 'closest = np.argmin(dists)', 'closest = np.argmax(dists) if len(dists) == 13 else np.argmin(dists)', 'farthest genome used when there are exactly 13 references'),
+	M('c03-ancestors-exclude-self', ['C03', 'C10'], 'src/gambit/classify.py', 'for t in taxon.ancestors(incself=True):\n\t\tif t.distance_threshold', 'for t in taxon.ancestors(incself=False):\n\t\tif t.distance_threshold', "genome's own taxon never matched"),
+	M('c03-next-returns-hi', ['C03'], 'src/gambit/classify.py', '\t\t\t\treturn lo\n', '\t\t\t\treturn lo if lo is not None else hi.parent\n', 'next taxon = parent of the prediction when the prediction is the first thresholded taxon'),
+	M('c03-report-unconditional', ['C03'], 'src/gambit/db/models.py', '\t\tif t.report:\n\t\t\treturn t', '\t\tif t.report or t.parent is None:\n\t\t\treturn t', 'unreportable root reported'),
+	M('c03-primary-always', ['C03'], 'src/gambit/classify.py', 'primary_match=closest_match if closest_match.matched_taxon is not None else None,', 'primary_match=closest_match,', 'primary match set even without a prediction'),
+	M('c03-original-next-taxon', ['C03'], 'src/gambit/classify.py', '\t\twhile hi is not None and hi.distance_threshold is None:\n\t\t\thi = hi.parent\n\n\t\twhile hi is not None:\n\t\t\tif hi.distance_threshold is not None', '\t\twhile hi is not None:\n\t\t\tif hi.distance_threshold is not None', 'pre-fix next_taxon'),
+	M('c03-threshold-skip-none-as-zero', ['C03', 'C10'], 'src/gambit/classify.py', 'if t.distance_threshold is not None and d <= t.distance_threshold:', 'if d <= (t.distance_threshold or 0):', 'taxa without threshold match distance 0'),
 ]
